@@ -82,6 +82,10 @@ def pile_of(boxes, unders, i):
 
 def run_case(tape, tier):
     res = Result()
+    # hio keeps every act instance in class-level registries for the life of the process (ActBase.Instances); it has a hook to
+    # empty them "for testing purposes".  Without it a worker grows by some 50 kB per case until its memory cap kills it.
+    from hio.base.hier import acting as _acting
+    _acting.ActBase._clearall()
     boxes, edges, sched = gen(tape, tier)
     nb = len(boxes)
     unders = {i: [] for i in range(nb)}
